@@ -107,3 +107,60 @@ def add(rep, ctx=None):
             o.verdict = "inconclusive"
             o.detail += "; the real move_target maps the whole path menu as documented"
     rep.add(o)
+    try:
+        target_dir_obligations(rep, ctx)
+    except Inconclusive as ex:
+        o2 = Obligation("move target directory", "E2 mirsym/z3")
+        o2.verdict, o2.detail = "inconclusive", str(ex)
+        rep.add(o2)
+
+
+def target_dir_obligations(rep, ctx):
+    """`move DIR`: main() resolves DIR against the working directory of the move command (absolute DIR unchanged - Path::resolve),
+    hands exactly that path to run_dedupe, and run_dedupe hands its operation on to the script builder unchanged"""
+    binp = ctx.bin
+    eng = oblig.engine(binp, unroll=1, inline=None, extra=dict(optsum.SUMMARIES))
+    mn = binp.find(r"^main$")
+    ps = eng.run(mn)
+
+    def mprop(p):
+        rd = [ev for ev in p.events if ev.kind == "call" and re.search(r"(^|::)run_dedupe$", ev.callee)]
+        if not rd or not (isinstance(rd[0].args[0], mirsym.EnumV) and rd[0].args[0].variant == "Move"):
+            return None
+        st = mirsym.State()
+        st.mem, st.pc = p.mem, list(p.pc)
+        payload = summaries.canon(eng, st, rd[0].args[0])
+        res = [ev for ev in p.events if ev.kind == "call" and re.search(r"Path::resolve$", ev.callee)]
+        cwd = [ev for ev in p.events if ev.kind == "call" and re.search(r"(^|::)current_dir$", ev.callee)]
+        if len(res) != 1 or len(cwd) != 1 or not isinstance(res[0].ret, Lazy) or res[0].ret.name not in payload:
+            return z3.BoolVal(False)
+        base, rel = summaries.canon(eng, st, res[0].args[0]), summaries.canon(eng, st, res[0].args[1])
+
+        def derives(c, name, depth=5):
+            for _ in range(depth):
+                if name in c:
+                    return True
+                prod = [ev for ev in p.events if ev.kind == "call" and isinstance(ev.ret, Lazy) and ev.ret.name in c and ev.args]
+                if not prod:
+                    return False
+                c = summaries.canon(eng, st, prod[0].args[0])
+            return False
+        ok = derives(base, cwd[0].ret.name) and derives(rel, "command@Move") and not derives(base, "command@Move")
+        return z3.BoolVal(bool(ok))
+    o = oblig.check_paths(eng, ps, "main(): `move DIR` resolves DIR against the current working directory and hands that path to run_dedupe",
+                          mprop, oblig.fnames(eng), key="move:target-dir-resolution", allow=("return", "panic", "diverge", "bound"))
+    rep.add(o)
+    rdp = binp.find(r"(^|::)run_dedupe$")
+    eng2 = oblig.engine(binp, unroll=0, inline=None, extra=dict(optsum.SUMMARIES))
+    opv = Lazy("op", rdp.args[0][1])
+    ps = eng2.run(rdp, args=[opv, Lazy("config", rdp.args[1][1]), Lazy("log", rdp.args[2][1])])
+
+    def rprop(p):
+        d = [ev for ev in p.events if ev.kind == "call" and re.search(r"(^|::)dedupe$", ev.callee)]
+        if not d:
+            return None
+        st = mirsym.State()
+        st.mem, st.pc = p.mem, list(p.pc)
+        return z3.BoolVal(any(summaries.canon(eng2, st, a).strip("&*") == "op" for a in d[0].args))
+    rep.add(oblig.check_paths(eng2, ps, "run_dedupe: the operation (with its target directory) reaches the script builder unchanged",
+                              rprop, oblig.fnames(eng2), key="move:op-passthrough", allow=("return", "panic", "diverge", "bound")))
